@@ -84,3 +84,22 @@ PROPS["C19"] = dict(
     partial=["'well-formed value' is read as: non-nil, all views agree, re-encoding decodes to the same position; chess-level plausibility (kings, e.p. pawn) is not demanded of a FEN decoder"],
     modelled=["board/fen/fen.go Decode; board/move.go ParseMove; board/square.go ParseSquare(Str), ParseFile, ParseRank -> Model.Fen"],
 )
+
+PROPS["C06"] = dict(
+    modules=["Morlock.Props.C06", "Morlock.Props.GenTie"],
+    streams=["c06", "playq"],
+    level_text="Lean theorems (full, no enumeration of boards): for every square and EVERY occupancy < 2^64 the rook/bishop/queen attackboards computed through the "
+               "rotated bitboards and the generated index tables equal the ray sets of the reference geometry (first blocker included); king, knight and pawn "
+               "boards equal their step sets; NewRotatedBitboard establishes and Xor preserves the rotation invariant (tables proved injective). The table "
+               "constants are read from Morlock.Gen (regenerated from bitboard.go on every run) inside kernel-evaluated facts, so a changed constant re-opens "
+               "the proof. Derived queries (IsAttacked/IsChecked/IsCheckMate/FindCapture/FindPins) are decided by the differential stream (exploration).",
+    level_note="Trusted: Lean kernel (decide +kernel for the 64-square geometric side conditions); Model.Attack transcription of the init loops tied by an exhaustive "
+               "run over all 64 x 256 line states per line through the exported API; Spec.Chess ray geometry.",
+    technique="Lean 4 proof: lock-step induction scan loop vs reference ray + kernel-decided table facts; exhaustive differential over line states",
+    rule="exhaustive: 64 squares x 256 states of the rank, file and both diagonals (+ queen on rank|file), all squares for K/N/P; random full occupancies; derived queries on generated positions; "
+         "non-trivial = (square, line state) pair / position with check, pin, e.p., castling or promotion; distinct by (sq,state) or position key",
+    partial=["derived queries (isAttacked, isChecked, isCheckMate, findCapture, findPins) are compared impl vs model vs spec on generated positions, not yet theorems"],
+    modelled=["board/bitboard.go: init loops of king, knight, rookrank, rookfile, bishopL, bishopR; Rook/Bishop/Queen/King/KnightAttackboard, Attackboard, "
+              "RotatedBitboard.Xor, NewRotatedBitboard, PawnCaptureboard -> Model.Attack; the seven index tables -> Gen.Tables (generated)"],
+    exhaustive=True,
+)
